@@ -780,3 +780,46 @@ package server
 //@ on_panic ensures[C14] buffer_closed_when_the_target_aborts: count(CloseBuffer(_)) == 1
 //@ ensures[C14] forwards_once_then_sends: count(Forward(_, _, _)) == 1 && count(SendResponse(_)) == 1 && first(Forward(_, _, _), SendResponse(_)) && first(SendResponse(_), CloseBuffer(_))
 //@ ensures[C14] overflow_is_500: count(HttpError(_, _)) <= 1 && all(HttpError, $1 == 500) && first(SendResponse(_), HttpError(_, _))
+
+//@ func server.newLoggerResponseWriter
+//@ assigns nothing
+//@ ensures[C19] starts_at_200: fresh(result) && result.statusCode == 200 && result.bytesWritten == 0 && result.ResponseWriter == w
+
+//@ func (*server.loggerResponseWriter).WriteHeader
+//@ requires !isnil(r.ResponseWriter)
+//@ assigns r.statusCode, @writerFrame
+//@ may_emit WriteHeader
+//@ ensures[C19] records_and_forwards: r.statusCode == statusCode && emitted(WriteHeader(r.ResponseWriter, statusCode)) && count(WriteHeader(_, _)) == 1
+
+//@ func (*server.loggerResponseWriter).Write
+//@ requires !isnil(r.ResponseWriter) && 0 <= r.bytesWritten && r.bytesWritten <= 4611686018427387904
+//@ assigns r.bytesWritten, @writerFrame
+//@ may_emit Write
+//@ ensures[C19] counts_what_was_written: r.bytesWritten == old(r.bytesWritten) + result0 && emitted(Write(r.ResponseWriter, result0)) && count(Write(_, _)) == 1 && 0 <= result0 && result0 <= len(b)
+
+//@ func (*server.loggerResponseWriter).Hijack
+//@ requires !isnil(r.ResponseWriter)
+//@ assigns r.statusCode, @writerFrame
+//@ may_emit HijackConn
+//@ ensures[C19] upgrade_is_101: emitted(HijackConn(_)) && err == nil ==> r.statusCode == 101
+//@ ensures[C19] failed_upgrade_keeps_status: err != nil ==> r.statusCode == old(r.statusCode)
+
+//@ func (*server.LoggingMiddleware).retrieveCustomHeaders
+//@ assigns nothing
+//@ may_emit AttrStr
+//@ ensures[C19] one_attribute_per_configured_header: len(result) == len(headerNames)
+//@ loop 1 invariant one_each: len(attrs) == idx && idx <= len(coll) && coll == headerNames
+
+//@ func (*server.LoggingMiddleware).ServeHTTP
+//@ requires r != nil && r.URL != nil && !isnil(w) && !isnil(h.next) && h.logger != nil
+//@ attr blocks
+//@ assigns *
+//@ may_emit *
+//@ ensures[C19] exactly_one_record: count(Log(_, _, _)) == 1 && emitted(Log(old(h.logger), "Request", _))
+//@ on_panic ensures[C19] one_record_even_when_the_handler_aborts: count(Log(_, _, _)) == 1
+//@ ensures[C19] forwards_once_before_logging: count(Forward(_, _, _)) == 1 && first(Forward(_, _, _), Log(_, _, _))
+//@ ensures[C19] status_and_size_are_what_the_writer_recorded: emitted(AttrInt("status", writer.statusCode)) && emitted(AttrInt("resp_content_length", writer.bytesWritten))
+//@ ensures[C19] request_line_attributes: emitted(AttrStr("method", r.Method)) && emitted(AttrStr("host", r.Host)) && emitted(AttrStr("path", r.URL.Path)) && emitted(AttrStr("query", r.URL.RawQuery)) && emitted(AttrStr("request_id", hdrGet(r.Header, "X-Request-ID")))
+//@ ensures[C19] service_and_target_from_the_shared_context: emitted(AttrStr("service", loggingRequestContext.Service)) && emitted(AttrStr("target", loggingRequestContext.Target))
+//@ ensures[C19] context_shared_with_the_chain_before_it_runs: all(Forward, ctxtyp(as($2, `*net/http.Request`), LOGKEY) == typeid(*loggingRequestContext) && ctxval(as($2, `*net/http.Request`), LOGKEY) == ref(loggingRequestContext$ptr) && $1 == ref(writer))
+//@ ensures[C19] scheme_follows_the_connection: (r.TLS != nil ==> emitted(AttrStr("scheme", "https")) && emitted(AttrInt("port", old(h.httpsPort)))) && (r.TLS == nil ==> emitted(AttrStr("scheme", "http")) && emitted(AttrInt("port", old(h.httpPort))))
